@@ -2106,6 +2106,9 @@ extern "C" void* __wrap___cxa_allocate_exception(std::size_t n) noexcept {
   void* p = __real___cxa_allocate_exception(n);
   if (p != nullptr) {
     vx::hb::OnRawAlloc(p, n);
+    if (vx::g.tracing) {
+      std::printf("     . exception object allocated at %p (%zu bytes)\n", p, n);
+    }
   }
   return p;
 }
